@@ -66,6 +66,9 @@ def session(name, seed=0):
         bs = mkboards(1, seed + 2)
         bs[0] = type(bs[0])(hands=bs[0].hands, dealer=type(bs[0].dealer)(1), vul=bs[0].vul, board_id=bs[0].board_id)
         return bs, lambda: bundled_clients('script', scripts=sc, seed=seed)
+    if name == 'S9':      # five boards: played, passed out, played (East opens), passed out, played
+        sc = {'N': [[1], [], [], [], [2]], 'E': [[], [], [3], [], []], 'S': [[], [], [], [], []], 'W': [[], [], [], [], [6]]}
+        return mkboards(5, seed + 3), lambda: bundled_clients('script', scripts=sc, seed=seed)
     if name in ('A1', 'A2'):
         # admission: invalid requests interleaved with the four bundled clients (arrival order is the list order)
         def mk():
